@@ -25,6 +25,7 @@ func init() {
 	props["C12"] = runC12
 	childModes["c12child"] = c12Child
 	childModes["c12neg"] = c12Neg
+	childModes["c12muted"] = c12Muted
 }
 
 type stdoutRec struct{}
@@ -215,6 +216,37 @@ func c12Neg(a []string) {
 		}
 	}
 	fmt.Println("DONE")
+}
+
+// c12muted <verb> <format> <flags>: a logger whose error list was given one destination which was taken away again (the
+// list is empty: its records are written nowhere). An admitted Panic / Fatal terminates all the same.
+func c12Muted(a []string) {
+	if len(a) != 3 {
+		os.Exit(4)
+	}
+	flags, _ := strconv.ParseUint(a[2], 10, 64)
+	slog.SetFlags((slog.GetFlags() &^ slog.Lcaller) | slog.Flags(flags))
+	l := slog.New("c12muted").SetLevel(slog.InfoLevel)
+	c14Format(l, map[string]string{"json": "j", "logfmt": "l", "color": "c"}[a[1]])
+	gone := &recorder{}
+	l.SetErrorWriter(gone)
+	l.RemoveErrorWriter(gone)
+	defer func() {
+		if r := recover(); r != nil {
+			os.Stdout.WriteString("PANIC " + hex.EncodeToString([]byte(fmt.Sprint(r))) + "\n")
+			os.Exit(10)
+		}
+	}()
+	switch a[0] {
+	case "Panic":
+		l.Panic("muted-message", "k", 1)
+	case "Fatal":
+		l.Fatal("muted-message", "k", 1)
+	case "PanicContext":
+		l.PanicContext(context.Background(), "muted-message")
+	}
+	os.Stdout.WriteString("RETURNED\n")
+	os.Exit(0)
 }
 
 type c12Cell struct {
@@ -421,7 +453,32 @@ func runC12(r *run) {
 			}
 		}
 	}
-	r.extra["child_processes"] = len(cells) + 4
+	// a logger that writes its error-class records nowhere still terminates (production mode, and go-test mode with the
+	// interrupt-always flag)
+	for _, testing := range []bool{false, true} {
+		for _, verb := range []string{"Panic", "Fatal", "PanicContext"} {
+			for _, format := range []string{"logfmt", "json"} {
+				fl := uint64(0)
+				if testing {
+					fl = always
+				}
+				out, code := c12Spawn(exe, testing, "c12muted", verb, format, strconv.FormatUint(fl, 10))
+				want := "PANIC " + hex.EncodeToString([]byte("muted-message"))
+				ok := code == 10 && strings.Contains(out, want)
+				if verb == "Fatal" {
+					ok = code == 253
+					want = "exit status 253"
+				}
+				r.seen("muted|" + b01(testing) + "|" + verb + "|" + format)
+				if !ok {
+					r.violate(violation{What: "an admitted " + verb + " on a logger whose error writers were all removed did not terminate as " + verb + " does",
+						Input:    map[string]any{"go_test_mode": testing, "flags": fl, "format": format, "configured_by": "SetErrorWriter(w); RemoveErrorWriter(w)"},
+						Expected: want, Actual: map[string]any{"exit": code, "output_tail": tail(out, 300)}})
+				}
+			}
+		}
+	}
+	r.extra["child_processes"] = len(cells) + 4 + 12
 }
 
 func tail(s string, n int) string {
